@@ -169,6 +169,16 @@ func runC07(c *ev.Ctx) {
 				if (r.Intn(4) == 0 && !(firstBurstRun && n < bigBurstAt)) || K >= 255 {
 					c1 := c04candidate(plan.Epoch, e.Creator(), sp, others)
 					c2 := c04candidate(plan.Epoch, e.Creator(), sp, others)
+					if r.Intn(3) == 0 {
+						// the dirty side builds a draft first and then rebuilds the same object with all parents
+						draft := c04candidate(plan.Epoch, e.Creator(), sp, nil)
+						draft.SetLamport(c2.Lamport())
+						if err := dirty.Build(draft); err == nil {
+							draft.SetParents(c2.Parents())
+							c2 = draft
+							builds++
+						}
+					}
 					e1, e2 := clean.Build(c1), dirty.Build(c2)
 					c.Count("common_builds_compared", 1)
 					if (e1 == nil) != (e2 == nil) || c1.Frame() != c2.Frame() {
